@@ -18,6 +18,7 @@ import (
 	"strconv"
 	"strings"
 	"sync"
+	"sync/atomic"
 	"time"
 
 	"github.com/PowerDNS/lightningstream/utils/verifhook"
@@ -76,7 +77,7 @@ type Sched struct {
 	ThreadOf func(point, name, stack string) string
 	// ExpectLMDBBlock: a goroutine sitting in mdb_txn_begin counts as blocked
 	// (the harness holds an application write transaction open).
-	ExpectLMDBBlock bool
+	ExpectLMDBBlock atomic.Bool
 	// SleepKey maps a sleep duration to a park point name ("" = do not take over the sleep).
 	SleepKey func(d time.Duration) string
 	MaxSteps int
@@ -373,7 +374,7 @@ func (s *Sched) WaitQuiescent() []GInfo {
 			if isBlockedState(g.State) {
 				continue
 			}
-			if s.ExpectLMDBBlock && g.State == "syscall" && strings.Contains(g.Stack, "_Cfunc_mdb_txn_begin") {
+			if s.ExpectLMDBBlock.Load() && g.State == "syscall" && strings.Contains(g.Stack, "_Cfunc_mdb_txn_begin") {
 				lmdbWait[g.ID]++
 				if lmdbWait[g.ID] >= 4 {
 					continue
